@@ -121,10 +121,10 @@ func (r *aggRun) exec(op sim.Op, crashK int) (fired bool, err error) {
 		time.Sleep(time.Duration(ms) * time.Millisecond)
 		return false, nil
 	case "da":
-		n.W.DA.SubmitScript = append(n.W.DA.SubmitScript, sim.SubmitOutcome{Kind: sim.SubmitKind(op.A % 10), N: int(op.B), Advance: op.C%2 == 1})
+		n.DAOf().SubmitScript = append(n.DAOf().SubmitScript, sim.SubmitOutcome{Kind: sim.SubmitKind(op.A % 10), N: int(op.B), Advance: op.C%2 == 1})
 		return false, nil
 	case "daadv":
-		n.W.DA.Advance(1)
+		n.DAOf().Advance(1)
 		return false, nil
 	}
 	if !n.Alive {
